@@ -275,8 +275,8 @@ def programs(tier, seed):
     progs += gen.random_programs(40, seed)
   else:
     sk3 = [p for p in gen.skeletons(3) if p.name.count('>') == 2]
-    progs = sk + rnd.sample(sk3, 900)
-    progs += gen.random_programs(500, seed) + gen.random_programs(150, seed + 1, max_depth=4, max_stmts=7)
+    progs = sk + rnd.sample(sk3, 300)
+    progs += gen.random_programs(300, seed) + gen.random_programs(80, seed + 1, max_depth=4, max_stmts=7)
   progs += [gen.Prog(n, s, {'extra'}, EXTRA_GLOBS.get(n)) for n, s in EXTRA]
   progs += [gen.Prog(n, s, {'witness'}) for n, _, s in WITNESS]
   import os
